@@ -13,7 +13,7 @@ func init() {
 	register(&Rule{
 		ID:    "LANG-0",
 		Doc:   "module non-test code contains no unsafe/reflect/cgo imports, no //go:linkname, no go statement, select or recover; channel operations occur only in package internal/monitor (one obligation per source file)",
-		Floor: 60,
+		Floor: 70,
 		Ctl:   []string{"internal__phase1__lang0.go.txt"},
 		Run:   runLang0,
 	})
